@@ -18,11 +18,17 @@ CONSTANTS Which, MaxSize
 \* (the definition layer abstains: cancellation is C07's subject), but it is the same with and without a stepper
 CXG == Grammar(<<"1", "x", "(cancel!)", "(trace! 2)">>,
                <<"(list _1 1)", "(list 0 _1 x (trace! 3))", "(do _1 1)", "(if _1 1 2)", "[_1 1]", "(let [a _1] a 1)",
-                 "(try _1 (catch e (trace! :c) 1))", "((fn [a b] b) _1 1)">>,
+                 "(try _1 (catch e (trace! :c) 1))", "((fn [a b] b) _1 1)",
+                 \* SHORT special forms in tail position of a longer one (what they compute is left to the code, too)
+                 "(do (trace! 5) _1 (def q))", "(do 7 _1 (if x))", "(let [a 1] _1 (if a))", "(do _1 (trace! 6) (do))",
+                 "(if x (do 8 _1 (def q)) 9)", "((fn [a] (trace! a) _1 (if a)) 1)">>,
                <<"(list _1 _2)", "(do _1 _2)", "(let [a _1] _2)">>, <<>>)
-G == CASE Which = "c01" -> C01G [] Which = "c03" -> C03G [] Which = "c12" -> C12GM [] Which = "cx" -> CXG
+\* "cl": a long tail loop (21000 iterations: a nested evaluation per step when a stepper is installed); the definition
+\* layer abstains (too long to evaluate there), the runs with and without a stepper must agree
+CLG == Grammar(<<"(long-loop! 21000)">>, <<"(do 1 _1)", "(list _1 2)">>, <<>>, <<>>)
+G == CASE Which = "c01" -> C01G [] Which = "c03" -> C03G [] Which = "c12" -> C12GM [] Which = "cx" -> CXG [] Which = "cl" -> CLG
 CtxForms == CASE Which = "c01" -> C01CtxForms [] Which = "c03" -> C03CtxForms [] Which = "c12" -> C12CtxForms
-              [] Which = "cx" -> C01CtxForms
+              [] Which = "cx" -> C01CtxForms [] Which = "cl" -> C01CtxForms
 
 ASSUME InitRegisters
 ASSUME SetContext(CtxForms)
